@@ -32,7 +32,9 @@ RULE = (
     'degenerate step fraction; (L) ladder of short routes; (M) load factor x starting mass x mass-iteration '
     'setting x routes; (Q2/Q3/QV) every ordered pair / triple of missions (a route, its reverse, other routes, '
     'refused missions; tables, load factor and starting mass varying between the calls) flown in sequence on ONE '
-    'builder instance created inside the case, every returned trajectory judged by the same monitor. '
+    'builder instance created inside the case, every returned trajectory judged by the same monitor; (QI) every '
+    'ordered pair of DIFFERENT missions that share airport codes, label, aircraft type and flight id (positions '
+    'given on the mission) on the same and on a new builder, each judged against its own mission. '
     'A case is non-trivial when a trajectory with >=3 points in every phase was returned and monitored, '
     'or when the mission was refused; distinct = distinct case'
 )
@@ -147,6 +149,8 @@ def route_codes(route, oe=None, de=None, rev=False):
 
 
 def case_codes(case):
+    if case.get('codes'):
+        return tuple(case['codes'])
     return route_codes(case['route'], case['oe'], case['de'], bool(case.get('rev', False)))
 
 
@@ -208,6 +212,15 @@ def _verify_csv():
 def airport_position(code):
     lo, la, e = AIRPORTS[code]
     return (float(lo), float(la), (float(e) * FT) if e else 0.0)
+
+
+def case_positions(case):
+    """((lon, lat, alt_m) origin, destination) of the mission of this case/leg: the positions given on the
+    mission itself when the case supplies them, the harness airport table otherwise."""
+    o, d = case_codes(case)
+    po = tuple(float(x) for x in case['pos_o']) if case.get('pos_o') else airport_position(o)
+    pd_ = tuple(float(x) for x in case['pos_d']) if case.get('pos_d') else airport_position(d)
+    return po, pd_
 
 
 # ------------------------------------------------------------------ axes
@@ -276,6 +289,51 @@ def _seq_case(sub, legs, it='off'):
     return {'sub': sub, 'steps': list(SEQ_STEPS), 'iter': it, 'legs': legs}
 
 
+# -- two missions in one process that SHARE their identifying attributes (origin code, destination code, hence
+# label; aircraft type; flight id) but DIFFER in what the trajectory depends on.  Positions are supplied on the
+# mission itself (`origin_position` / `destination_position`), so one code pair can stand for different places;
+# the codes are unique to the case (nothing flown by another case can share them), which keeps the case
+# self-contained.  Each trajectory is judged against its OWN mission.
+_IO, _ID = ROUTE_POINTS[ELEV_ROUTE]
+IDENT_VARIANTS = {
+    'nominal': {},
+    'destination-moved': {'pos_d': [_ID[0] - 3.0, _ID[1] + 2.5, 0.0]},
+    'origin-moved': {'pos_o': [_IO[0] + 2.0, _IO[1] - 3.0, 0.0]},
+    'reversed-places': {'pos_o': [_ID[0], _ID[1], 0.0], 'pos_d': [_IO[0], _IO[1], 0.0]},
+    'elevations': {'pos_o': [_IO[0], _IO[1], 5000 * FT], 'pos_d': [_ID[0], _ID[1], 3000 * FT]},
+    'load-factor': {'lf': 0.5},
+    'table': {'table': 'synth3'},
+    'starting-mass': {'mass': 'mid'},
+}
+IDENT_AXIS = {
+    'quick': ['nominal', 'destination-moved', 'origin-moved', 'elevations', 'load-factor'],
+    'thorough': list(IDENT_VARIANTS),
+}
+
+
+def _ident_leg(variant, n):
+    leg = _leg('A')
+    leg.update({'codes': [f'QI{n}A', f'QI{n}B'], 'flight_id': 1000 + n,
+                'pos_o': [_IO[0], _IO[1], 0.0], 'pos_d': [_ID[0], _ID[1], 0.0]})
+    leg.update(IDENT_VARIANTS[variant])
+    return leg
+
+
+def _ident_cases(tier):
+    out = []
+    vs = IDENT_AXIS[tier]
+    for x in vs:
+        for y in vs:
+            if x == y:
+                continue  # the two missions must differ
+            for nb in (False, True):
+                n = len(out)
+                c = _seq_case('QI', [_ident_leg(x, n), _ident_leg(y, n)])
+                c['new_builder'] = nb
+                out.append(c)
+    return out
+
+
 def sublattices(tier, seed):
     subs = []
     subs.append({
@@ -331,6 +389,12 @@ def sublattices(tier, seed):
         'name': 'QV: pairs on one builder, load factor / explicit starting mass changing between the calls',
         'axes': {'first mission': av, 'second mission': av, 'first call': LEG_VARIANTS, 'second call': LEG_VARIANTS},
         'cases': [_seq_case('QV', [_leg(x, **v1), _leg(y, **v2)]) for x in av for y in av for v1 in LEG_VARIANTS for v2 in LEG_VARIANTS],
+    })  # fmt: skip
+    subs.append({
+        'name': 'QI: two different missions sharing codes/label/aircraft type/flight id x builder reused or new',
+        'axes': {'first mission': IDENT_AXIS[tier], 'second mission (a different one)': IDENT_AXIS[tier],
+                 'second call on': ['same builder', 'new builder'], 'variants': {k: IDENT_VARIANTS[k] for k in IDENT_AXIS[tier]}},
+        'cases': _ident_cases(tier),
     })  # fmt: skip
     subs.append({
         'name': 'M: load factor x starting mass x mass iteration x routes',
@@ -403,10 +467,11 @@ def worker_init(tier, seed):
     import AEIC.trajectories.builders as tb
     from AEIC.missions import Mission
     from AEIC.missions.mission import iso_to_timestamp
+    from AEIC.types import Position
 
     _STATE.clear()
     _STATE.update(
-        tb=tb, Mission=Mission, tables=_load_tables(), builders={},
+        tb=tb, Mission=Mission, Position=Position, tables=_load_tables(), builders={},
         dep=iso_to_timestamp('2024-09-01T12:00:00'), arr=iso_to_timestamp('2024-09-01T18:00:00'),
     )  # fmt: skip
     for k, pm in _STATE['tables'].items():
@@ -451,8 +516,13 @@ def fly(case, builder=None):
     pm = _STATE['tables'][case['table']]
     o, d = case_codes(case)
     mission = _STATE['Mission'](
-        origin=o, destination=d, departure=_STATE['dep'], arrival=_STATE['arr'], load_factor=float(case['lf']), aircraft_type='738'
+        origin=o, destination=d, departure=_STATE['dep'], arrival=_STATE['arr'], load_factor=float(case['lf']), aircraft_type='738',
+        flight_id=case.get('flight_id'),
     )  # fmt: skip
+    for attr, key in (('origin_position', 'pos_o'), ('destination_position', 'pos_d')):
+        if case.get(key):  # position supplied on the mission itself instead of looked up by code
+            lo, la, al = (float(x) for x in case[key])
+            setattr(mission, attr, _STATE['Position'](longitude=lo, latitude=la, altitude=al))
     b = builder if builder is not None else _builder(case)
     sm = _explicit_mass(case, pm)
     try:
@@ -569,13 +639,15 @@ def run_sequence(case):
     b = _new_builder(case)
     outcomes, vio, nontrivial = [], [], False
     for k, leg in enumerate(case['legs']):
+        if k and case.get('new_builder'):
+            b = _new_builder(case)  # state that outlives a builder object (module / class level) still matters
         r = judge(leg, *fly(leg, builder=b))
         outcomes.append(r['outcome'])
         nontrivial = nontrivial or bool(r['nontrivial'])
         o, d = case_codes(leg)
         for v in r['violations']:
             v = dict(v)
-            v['detail'] = f'call {k + 1} of {len(case["legs"])} on one builder ({o}->{d}, table {leg["table"]}; earlier calls: ' \
+            v['detail'] = f'call {k + 1} of {len(case["legs"])} in one process on {"a new" if (k and case.get("new_builder")) else "one"} builder ({o}->{d}, table {leg["table"]}; earlier calls: ' \
                           f'{["->".join(case_codes(p)) for p in case["legs"][:k]]}): ' + v['detail']
             vio.append(v)
     return {'outcome': 'sequence:' + ' | '.join(outcomes), 'nontrivial': nontrivial, 'violations': vio}
@@ -593,8 +665,8 @@ def judge(case, kind, res):
     except Exception as e:  # noqa: BLE001
         return {'outcome': 'flown:unreadable', 'nontrivial': True,
                 'violations': [V('shape', f'returned trajectory cannot be read: {type(e).__name__}: {e}')]}  # fmt: skip
-    o, d = case_codes(case)
-    spec = {'o': airport_position(o), 'd': airport_position(d), 'ceiling': CEILING_FT[case['table']] * FT}
+    po, pd_ = case_positions(case)
+    spec = {'o': po, 'd': pd_, 'ceiling': CEILING_FT[case['table']] * FT}
     obs = dict(pts)
     obs.update(starting_mass=meta['starting_mass'], total_fuel_mass=meta['total_fuel_mass'], n_climb=meta['n_climb'], n_cruise=meta['n_cruise'])  # fmt: skip
     if not all(isinstance(obs[k], (int, float, np.integer, np.floating)) for k in ('starting_mass', 'total_fuel_mass', 'n_climb', 'n_cruise')):  # fmt: skip
@@ -694,7 +766,12 @@ def observe(case):
 
     if 'legs' in case:
         b = _new_builder(case)
-        return [digest(*fly(leg, builder=b)) for leg in case['legs']]
+        out = []
+        for k, leg in enumerate(case['legs']):
+            if k and case.get('new_builder'):
+                b = _new_builder(case)
+            out.append(digest(*fly(leg, builder=b)))
+        return out
     return digest(*fly(case))
 
 
